@@ -51,6 +51,7 @@ pub fn run(out: &mut Out, tier: &str, rng: &mut Rng) {
             }
         }
         // ---- rx ----
+        let mut timeouts = 0usize;
         for id in ids(rng, n_ids) {
             for dlc in 0..=8u8 {
                 let flags = match rng.below(4) {
@@ -64,8 +65,15 @@ pub fn run(out: &mut Out, tier: &str, rng: &mut Rng) {
                     *b = rng.byte();
                 }
                 let raw = Bus::raw(id | flags, dlc, &data);
+                // a frame that is never delivered costs a time-out: after 12 of them the point is made
+                if timeouts >= 12 {
+                    continue;
+                }
                 bus.inject(&raw);
-                let r = tokio::time::timeout(std::time::Duration::from_millis(500), net.recv()).await;
+                let r = tokio::time::timeout(std::time::Duration::from_millis(400), net.recv()).await;
+                if r.is_err() {
+                    timeouts += 1;
+                }
                 let o = match r {
                     Ok(Ok(())) => fmt::frame(net.frame().unwrap()),
                     Ok(Err(e)) => format!("ERR:{:?}", e.kind()),
